@@ -209,6 +209,13 @@ def run_in_process(case):
         # compile under another limit, then set the limit: the bound is the one configured when the query is applied
         env = type("E", (jp.JSONPathEnvironment,), {"nondeterministic": case["mode"] == "nondet",
                                                     "max_recursion_depth": case["L"] + 7})()
+    elif how == "class-changed-after-instance":
+        # the environment exists already (as the package's default environment does from import time) when its class
+        # is configured
+        cls = type("E", (jp.JSONPathEnvironment,), {})
+        env = cls()
+        cls.nondeterministic = case["mode"] == "nondet"
+        cls.max_recursion_depth = case["L"]
     else:
         env = type("E", (jp.JSONPathEnvironment,), {"nondeterministic": case["mode"] == "nondet",
                                                     "max_recursion_depth": case["L"]})()
@@ -327,7 +334,7 @@ def run_shard(spec, shard):
             if L >= 6 and r.random() < 0.2:
                 shape["shared"] = True
         case = {"L": L, "mode": mode, "shape": shape, "below_child": below, "tail": tail,
-                "config": r.choice(["class", "class", "instance", "changed-after-compile"])}
+                "config": r.choice(["class", "class", "instance", "changed-after-compile", "class-changed-after-instance"])}
         if excluded_ab(case):
             shard.excluded["AB:nondeterministic-mode-on-a-branching-cycle-with-limit>14"] += 1
             return
